@@ -11,7 +11,7 @@ also for a route whose last method was removed: that is 405 with an empty Allow)
 registration the model rejects must raise and leave the state unchanged, one it accepts must not raise.
 """
 from vf import core, sut, wsgi
-from vf.hist import Search
+from vf.hist import Search, Built
 from vf.canon import Canon
 
 _canon = Canon(tb=False)
@@ -341,7 +341,15 @@ def work(spec):
         EXTRA_RULES[:] = sorted({o[1] for o in extra} - set(RULES))
         EXTRA_PATHS[:] = [r.replace('{p}', '7') for r in EXTRA_RULES]
     # states are deduplicated by the method tables AND the concrete router object graph (hidden dispatch state counts)
-    s = Search(lambda h: build(om, h), m, lambda obj: (real_key(obj[0]), _canon(obj[0].router)))
+    def build_k(h):
+        b = Built(build(om, h))
+        mm = Model()
+        for o in h:
+            mm.apply(o)
+        b.mkey = mm.key()
+        return b
+    # ... and by the reference model's state: histories are merged only when real AND expected states agree
+    s = Search(build_k, m, lambda obj: (real_key(obj[0]), _canon(obj[0].router), obj.mkey))
     s.run(depth, on_state, on_transition, first_ops=first)
     if kind == 'extra':
         EXTRA_RULES[:] = []
